@@ -87,6 +87,23 @@ pub fn check_pair(a: &Locale, b: &Locale, st: &mut Stats, mode: Count) {
     if (results[0] && !(results[1] && results[2] && results[3])) || (results[1] && !results[3]) || (results[2] && !results[3]) {
         st.fail("langid-matches:flag-not-monotone", case(), size, format!("{results:?}"));
     }
+    // a present-but-empty variant list (reachable through the safe constructor
+    // from_raw_parts_unchecked, whose documented expectation - deduplicated and ordered - it
+    // meets) is an empty field like an absent one
+    if ma.variants.is_empty() || mb.variants.is_empty() {
+        let twin = |l: &Locale| LanguageIdentifier::from_raw_parts_unchecked(l.id.language, l.id.script, l.id.region, Some(Box::new([])));
+        let ta = if ma.variants.is_empty() { twin(a) } else { a.id.clone() };
+        let tb = if mb.variants.is_empty() { twin(b) } else { b.id.clone() };
+        for (ra, rb) in [(false, false), (true, false), (false, true), (true, true)] {
+            let exp = expected(&ma, &mb, ra, rb);
+            let got = [ta.matches(&b.id, ra, rb), a.id.matches(&tb, ra, rb), ta.matches(&tb, ra, rb)];
+            // with no flag set the result is plain equality, which is representation-sensitive
+            // for the unchecked constructor: only the wildcard semantics are judged here
+            if (ra || rb) && got.iter().any(|g| *g != exp) && ma.variants.is_empty() != mb.variants.is_empty() {
+                st.fail(format!("langid-matches:present-but-empty-variant-list:flags={}{}", ra as u8, rb as u8), case(), size, format!("{sa} vs {sb} with Some([]) on the variant-less side(s): {got:?}, expected {exp}"));
+            }
+        }
+    }
     if !a.id.matches(&a.id, false, false) || !a.id.matches(&a.id, true, true) {
         st.fail("langid-matches:not-reflexive", case(), size, sa.clone());
     }
@@ -137,7 +154,7 @@ pub fn run(cfg: &Cfg) -> Stats {
     total.subspace("108 identifiers x {no extension, -u-, -t-, -x-}, squared, x 4 flag pairs", n * 4, true);
     // random pairs: independent, self, and one-field-apart
     let np = cfg.pick(150_000, 5_000_000);
-    let strat = (gen::s_ast(), gen::s_ast(), 0u8..8);
+    let strat = (gen::s_ast(), gen::s_ast(), 0u8..12);
     let s = run_strategy(&strat, cfg.seed, "c11-pairs", np, |(a, b, k), st| {
         let mut b2 = b.clone();
         match k {
@@ -157,6 +174,33 @@ pub fn run(cfg: &Cfg) -> Stats {
             5 => {
                 b2 = a.clone();
                 b2.id.lang = b.id.lang.clone();
+            }
+            // near misses: the same identifier with the LAST letter of one subtag changed
+            // (subtags that share a long prefix: truncation / prefix-comparison slips)
+            8..=11 => {
+                b2 = a.clone();
+                let bump = |s: &str| -> String {
+                    let mut v: Vec<u8> = s.as_bytes().to_vec();
+                    if let Some(l) = v.last_mut() {
+                        *l = match *l {
+                            b'z' => b'y',
+                            b'9' => b'8',
+                            b'a'..=b'y' | b'0'..=b'8' => *l + 1,
+                            _ => *l,
+                        };
+                    }
+                    String::from_utf8_lossy(&v).to_string()
+                };
+                match k {
+                    8 if a.id.lang != "und" => b2.id.lang = bump(&a.id.lang),
+                    9 => b2.id.script = a.id.script.as_deref().map(bump),
+                    10 => b2.id.region = a.id.region.as_deref().map(bump),
+                    _ => {
+                        if let Some(v) = b2.id.variants.last_mut() {
+                            *v = bump(v);
+                        }
+                    }
+                }
             }
             _ => {}
         }
